@@ -3,14 +3,15 @@ import G3D.Extracted.Sites
 import G3D.Extracted.Consts
 import G3D.Proofs.TolUnique
 import G3D.Proofs.RoundStable
-/-! # C19 — tolerance is uniform and follows set_eps / set_sig_figures  (partial)
+/-! # C19 — tolerance is uniform and follows set_eps / set_sig_figures  (partial only at float rounding and the hash digits of composites)
     `Tol.Cfg` is the state of utils/constant.py (`FLOAT_EPS`, `SIG_FIGURES`), `Tol.step` its four entry points.
-    Proved: the two globals stay consistent after ANY sequence of setter calls, restoring eps restores the state,
+    Proved here: the two globals stay consistent after ANY sequence of setter calls, restoring eps restores the state,
     the coordinate comparison of Point/Vector accepts differences ≤ eps/1000 and rejects differences > 4·eps, and —
     over the table of tolerance reads extracted from the CURRENT source — every read in the package is a live getter
     call at query time (none is a value frozen at import time, none is a hard-coded literal).
-    Not proved (decided by the correspondence): the consequences for the six composite types (compare / hash / contain /
-    intersect as coincident under eps/1000 perturbations) — they need a tolerance-aware geometric model. -/
+    The consequences for Line / Plane / Segment / HalfLine / ConvexPolygon (compare / contain / intersect as coincident under
+    eps/1000 perturbations) are proved in the tolerance-aware real model `Model/TolGeo.lean`, `Proofs/TolGeo*.lean`, which
+    `Proofs/TolGeoTie.lean` ties to the comparisons extracted from the source (registered under C19 in theorems.json). -/
 namespace G3D.Props.C19
 open G3D.Tol G3D.Extracted
 
